@@ -119,6 +119,51 @@ def judge(rec, fn, sp, got, exc, wit, header, candidates=None, texts=(), naive_s
     rec.violation(bad[0], wit, known_key=_known_for(header, texts, naive_ok))
 
 
+MUTATIONS = [
+    lambda d: d.setdefault('charset', 'utf-8'),
+    lambda d: d.update(q='0'),
+    lambda d: d.clear(),
+    lambda d: d.update(level='1', a='2'),
+    lambda d: d.pop(next(iter(d)), None) if d else d.update(format='flowed'),
+    lambda d: d.update((k, v + 'x') for k, v in list(d.items())),
+]
+
+
+def check_parse_header(rec, text, k=0):
+    """Public parse_header(): documented result, and the dict handed out belongs to the caller -
+    an application that edits it (params.setdefault('charset', ...)) must not change any later result.
+    The later quality/best_match/resolution monitors run after these edits."""
+    import copy as _copy
+    want = M.ref_parse_header(text)
+    fn = falcon.parse_header if k % 2 else mediatypes.parse_header
+    try:
+        got = fn(text)
+    except Exception as ex:  # noqa
+        rec.violation('parse_header-raised', {'fn': 'parse_header', 'text': text, 'exc': repr(ex)})
+        return
+    rec.count('mon.parse_header')
+    ok_shape = isinstance(got, tuple) and len(got) == 2 and isinstance(got[0], str) and type(got[1]) is dict
+    if not ok_shape or (want is not None and got != want):
+        rec.violation('parse_header-mismatch', {'fn': 'parse_header', 'text': text, 'got': got, 'want': want},
+                      known_key=K_BACKSLASH if M.has_trailing_escaped_backslash(text) else None)
+        if not ok_shape:
+            return
+    first = (got[0], _copy.deepcopy(got[1]))
+    rec.count('ph.with_options' if got[1] else 'ph.no_options')
+    MUTATIONS[k % len(MUTATIONS)](got[1])          # the application edits what it was given
+    try:
+        again = fn(text)
+    except Exception as ex:  # noqa
+        rec.violation('parse_header-raised', {'fn': 'parse_header', 'text': text, 'exc': repr(ex), 'call': 2})
+        return
+    rec.count('mon.parse_header_owned')
+    if again != first or again[1] is got[1]:
+        rec.violation('parse_header-result-shared',
+                      {'fn': 'parse_header', 'text': text, 'mutation': k % len(MUTATIONS), 'first': first,
+                       'second_call': again, 'same_object': again[1] is got[1]})
+    MUTATIONS[(k + 1) % len(MUTATIONS)](again[1])
+
+
 def check_quality(rec, mt, header):
     sp = M.spec_quality(mt, header)
     got = exc = None
@@ -244,6 +289,10 @@ def exhaustive_negotiation(rec):
                 continue
             header = ', '.join(tup) if idx % 3 else ','.join(tup)
             nontrivial = False
+            if (idx // rec.nshards) % 5 == 0:
+                # an application parses (and edits the options of) a range and a media type now and then
+                check_parse_header(rec, tup[idx % L], idx)
+                check_parse_header(rec, CANDS[idx % len(CANDS)], idx // 3)
             for mt in CANDS:
                 sp = check_quality(rec, mt, header)
                 if 'multi' in sp.info:
@@ -406,6 +455,9 @@ def random_negotiation(rec, rng, n):
         header, cands, clean = gen_case(rng, hostile)
         nontrivial = False
         kinds = set()
+        members = M.split_top(header, ',')[0]
+        check_parse_header(rec, members[i % len(members)], i)
+        check_parse_header(rec, cands[i % len(cands)], i + 3)
         for mt in cands:
             sp = check_quality(rec, mt, header)
             kinds.add(sp.kind)
@@ -853,6 +905,8 @@ class History:
         rec, world = self.rec, self.world
         lives = [lv for lv in self.lives if not lv.dead]
         for li, live in enumerate(lives):
+            pt = self.probes[(step + li) % len(self.probes)] or self.default
+            check_parse_header(rec, pt, step + li)
             for ct in self.probes:
                 allowed, cls = M.resolve_allowed(live.model, ct, self.default)
                 rec.count('res.cls.' + cls)
@@ -1143,6 +1197,11 @@ def run(rec):
     ]
     rng = rec.rng
     world = World()
+    # before anything is negotiated (nothing cached yet): an application that parses a few common values with the
+    # public parse_header() and fills in defaults in the dict it got back
+    for k, text in enumerate(['text/plain', 'application/json', '*/*', 'text/plain;a=1', 'text/*', 'application/json',
+                              'text/html; charset=utf-8', '', 'text/plain ', 'msgpack', 'text/plain;a="1"', 'image/png']):
+        check_parse_header(rec, text, k)
     exhaustive_negotiation(rec)
     exhaustive_histories(rec, world)
     rec.exhaustive = True
@@ -1180,6 +1239,8 @@ def run(rec):
                     ('chg.set', 20), ('chg.del', 20), ('chg.update', 10), ('chg.pop', 10), ('chg.popitem', 10),
                     ('chg.setdefault', 5), ('chg.clear', 10), ('chg.default', 10), ('chg.ior', 5),
                     ('op.copy', 10), ('op.copycopy', 5), ('op.or', 5),
+                    ('mon.parse_header', 500), ('mon.parse_header_owned', 500), ('ph.no_options', 100),
+                    ('ph.with_options', 100),
                     ('op.update_fail', 20), ('op.ior_fail', 10), ('op.fail.applied_some', 20), ('chg.update_fail', 10),
                     ('res.cls.bad-key', 200), ('res.cls.undecided', 5), ('res.reentrant', 500),
                     ('mon.mapping_state', 500), ('mon.errser', 100), ('errser.handler', 20), ('errser.builtin', 20),
@@ -1200,6 +1261,9 @@ def replay(rec, w):
         return
     fn = wit.get('fn')
     header = wit.get('header')
+    if fn == 'parse_header':
+        for k in range(2 * len(MUTATIONS)):
+            check_parse_header(rec, wit['text'], k)
     if fn == 'quality':
         check_quality(rec, wit['media_type'], header)
     elif fn == 'best_match':
